@@ -206,7 +206,7 @@ def check(ctx):
                     if not g.is_pub or g.closure_of:
                         continue
                     if g.key == f.key or f.key in {cg.def_of(k) for k in _reach(cg, g.key, pub_reach_cache)}:
-                        if not _doc_mentions(g, subj):
+                        if not _doc_mentions(g, subj) and not _site_dead_in(prog, g.key, f.key, name):
                             docs_missing.append(g.key)
                 ok = unreachable and allowed and not docs_missing
                 if ok:
@@ -297,6 +297,29 @@ def check(ctx):
                        "across iterations - the input, an accumulator - makes decoding quadratic)" % (name.split("::")[-1], f.key),
                        where=f.where(bb), detail={"scanned": stale, "receiver": show(recv)[:100]})
     ctx.count("linear_scans_in_decode_loops", nscan)
+
+
+def _site_dead_in(prog, caller_key, site_fn_key, callee_name):
+    """in the net-effect (all-inlined) body of the public function `caller_key`, every copy of the panic-capable call that comes
+    from `site_fn_key` sits in a block reached only under a test of a literal that the literal fails: the call graph says the
+    site is reachable (`create_signature -> try_sign(.., None, ..) -> tbs_detached_data`), the code says it is not"""
+    try:
+        g = prog.view("all").fns.get(caller_key)
+        if g is None or not g.blocks or caller_key == site_fn_key:
+            return False
+        pv = Prov(g)
+        found = False
+        for bb, t in g.calls():
+            if callee_path(t) != callee_name:
+                continue
+            if site_fn_key not in tuple(g.blocks[bb].get("chain", ())):
+                continue
+            found = True
+            if not pv._block_statically_dead(bb):
+                return False
+        return found
+    except Exception:
+        return False
 
 
 def _self_field(t):
